@@ -264,7 +264,7 @@ impl <'a, N: Num + NumCast + NumAssignOps + Copy> SparseBinnedCoverage<'a, N> {
                     let site = &self.intervals[j];
                     let chr = site.chrom();
                     let start = site.start();
-                    let end = (start + self.bin_size).min(site.end());
+                    let end = start.saturating_add(self.bin_size).min(site.end());
                     Some(GenomicRange::new(chr, start, end))
                 } else {
                     None
@@ -276,7 +276,7 @@ impl <'a, N: Num + NumCast + NumAssignOps + Copy> SparseBinnedCoverage<'a, N> {
                     let chr = site.chrom();
                     let prev = self.accu_size[j-1];
                     let start = site.start() + ((index - prev) as u64) * self.bin_size;
-                    let end = (start + self.bin_size).min(site.end());
+                    let end = start.saturating_add(self.bin_size).min(site.end());
                     Some(GenomicRange::new(chr, start, end))
                 } else {
                     None
